@@ -35,6 +35,12 @@ TEXT = {
         "note": NOTE_COMMON + " The i64 overflow / u128 underflow (F7) was repaired by a fix: commit; C17_old_* record what was wrong and that the repair agrees with the old code on 2 ≤ m < 2^63.",
         "technique": "Lean 4 arithmetic theorems + exhaustive-delta differential execution",
     },
+    "C01": {
+        "level": "C01_apply: for every state and every accepted batch — any kinds, any order, members spending each other — the supply of every denomination (coins + pool reserves + fee pool and tips for MEL) grows by at most the declared issuance (faucet outputs and fee, a transaction's own new token, ERG outputs of an ERG mint); C01_apply_closed; C01_tx_balanced; C01_next. Sealing: C01_settlement (swaps, deposits and withdrawals against any pools in one block create nothing, outside the legacy deposit window), C01_builtins, C01_pegging_local, C01_subsidy (SYM grows by at most 2^20 >> halvings, MEL and ERG do not grow), C01_reward (exact), C01_legacy_deposit_keeps_coin (known deviation). Per-denomination totals of every generated batch/seal/next are compared with the model and checked against the declared issuance by a Python oracle on the real dumps.",
+        "design_ref": "DESIGN.md §4 C01",
+        "note": NOTE_COMMON + " Open known findings: legacy deposit rule (inflation below height 978392 on Mainnet/Testnet), F11 (grandfathered faucet replay).",
+        "technique": "Lean 4 conservation theorems (batch + every sealing phase) + differential execution + supply oracle",
+    },
     "C02": {
         "level": "C02_exact: after an accepted batch, for every coin id, the coin set is exactly (previous − every input) + every created output (declared value/covenant/additional data, creating height, NewCustom ↦ Custom(txhash), destroyed outputs omitted) + faucet markers — proved for all states and batches, including batches whose members spend each other in any order; C02_no_double_spend, C02_inputs_exist, C02_each_valid, C02_repeat_rejected, C02_missing_rejected, C02_reject_noop. The coin set after every generated batch is compared with the model and with an independent Python map-based reference; a harness fact checks that a rejected batch leaves the real state (dump and sealed header) untouched.",
         "design_ref": "DESIGN.md §4 C02",
@@ -112,7 +118,6 @@ TEXT = {
 NOTES = "See DESIGN.md. known_findings.json lists genuine defects that were repaired (fixed:) or recorded (open)."
 
 NOT_YET = {
-    "C01": "in progress: model and correspondence exist; theorem and oracle not yet registered",
     "C03": "in progress",
     "C09": "in progress",
 }
